@@ -5,7 +5,18 @@ package lucene
 // Bounded stand-in / counterexample search for property C09.
 // Layout (whitespace, keyword case, redundant parentheses) does not change meaning.
 // Injected into the repository root with `go test -overlay`; never written to /repo.
-// Interface: /verif/harness/README.md.
+// Interface: /verif/harness/README.md (VERIF_TIER, VERIF_SEED, VERIF_REPORT).
+//
+// The oracle is the property statement: trees are built with the public
+// constructors of pkg/lucene/expr, printed by a printer that knows only the
+// documented precedence table (OR < AND < NOT < ^ < ~ < - < +, binary operators
+// left-associative, field:value binds tightest), and compared with what Parse
+// returns; relations between two Parse runs are used where the statement is one.
+// Every failure is classified: it is attributed to a failing operand if there is
+// one, otherwise minimised, and the tag names the minimal shape.  Failures of the
+// current code are findings and are reported, never filtered.
+// The common core at the end of the file is shared (as a copy with another
+// identifier prefix) with the other parser stand-ins.
 
 import (
 	"encoding/json"
@@ -404,6 +415,9 @@ func vc09Slots(n *vc09node) []vc09Slot {
 		if x.kind == vc09Leaf && x.vs >= 0 {
 			out = append(out, vc09Slot{idx, vc09dValue, "value-of-" + x.form})
 		}
+		if x.kind == vc09Leaf && x.form == "list" {
+			out = append(out, vc09Slot{idx, vc09dElems, "operands-of-or-in-value-list"})
+		}
 	})
 	return out
 }
@@ -668,7 +682,7 @@ func TestVerifStandin_C09(t *testing.T) {
 		"variants: every gap tab / newline / CRLF / two spaces, no whitespace wherever a one-character symbol keeps the tokens apart, leading and trailing whitespace, 2 seeded random mixed fillings, "+
 		"all fillings over {none, space, tab, newline, CR} for length <= %d; keywords lower-case, Title-case, lOWER-first, one kind at a time, random, and every casing of every occurrence for length <= %d (<= 2 keywords); same outcome required (same tree or both rejected). "+
 		"part B: %d expression trees (all of depth <= 1 over the %d-leaf alphabet of C05, all of depth 2 over its first %d leaves, every 10th sampled tree), printed with explicit operators and minimal parentheses; redundant pairs around the whole query, "+
-		"around each operand of AND/OR/NOT/+/-/~/^, around each field's value: every placement alone (one pair, two pairs; without and with a default field), all subsets for depth <= 1 and unary roots, else all together + seeded random subsets; if the original parses the variant must give the identical tree. "+
+		"around each operand of AND/OR/NOT/+/-/~/^ (also the elements of a value list), around each field's value: every placement alone (one pair, two pairs; without and with a default field), all subsets for depth <= 1 and unary roots, else all together + seeded random subsets; if the original parses the variant must give the identical tree. "+
 		"part C: the token sequences of the %d depth<=1 trees and of %d seeded random trees of depth 2..%d (half of them with one token deleted or inserted; %d parse), whitespace and case variants as in part A. "+
 		"distinct_nontrivial counts variant texts (distinct per original by construction) of originals with at least two tokens.",
 		seqs, seqLen, A, parsable, fillLen, fillLen+1, ptrees, len(leaves), core, len(t1), nSample, sampleDepth+1, cparsable)
@@ -870,10 +884,11 @@ func vc09build(n *vc09node) *expr.Expression {
 
 // decorations of a node, addressed by its preorder index in the tree
 const (
-	vc09dJuxt   = 1 // AND node: write no operator, only whitespace
-	vc09dParen1 = 2 // one redundant pair of parentheses around the node
-	vc09dParen2 = 4 // two more redundant pairs
-	vc09dValue  = 8 // leaf: redundant parentheses around the field's value
+	vc09dJuxt   = 1  // AND node: write no operator, only whitespace
+	vc09dParen1 = 2  // one redundant pair of parentheses around the node
+	vc09dParen2 = 4  // two more redundant pairs
+	vc09dValue  = 8  // leaf: redundant parentheses around the field's value
+	vc09dElems  = 16 // value-list leaf: redundant parentheses around every element (the operands of its ORs)
 )
 
 type vc09printer struct {
@@ -930,7 +945,13 @@ func (p *vc09printer) node(n *vc09node, minPrec int, operand bool) {
 			if d&vc09dValue != 0 && i == n.vs {
 				p.emit(vc09ts("("))
 			}
-			p.emit(t)
+			if elem := d&vc09dElems != 0 && n.form == "list" && i > 2 && i < len(n.toks)-1 && t.k != 'k'; elem {
+				p.emit(vc09ts("("))
+				p.emit(t)
+				p.emit(vc09ts(")"))
+			} else {
+				p.emit(t)
+			}
 			if d&vc09dValue != 0 && i == n.ve-1 {
 				p.emit(vc09ts(")"))
 			}
@@ -1505,8 +1526,8 @@ func vc09msgLess(a, b vc09msg) bool {
 
 func (c *vc09cat) add(m vc09msg) {
 	for i, o := range c.best {
-		if o.input == m.input { // one message per input
-			if vc09msgLess(m, o) {
+		if o.input == m.input { // one message per input, the shorter one
+			if len(m.text) < len(o.text) || (len(m.text) == len(o.text) && m.text < o.text) {
 				c.best[i] = m
 			}
 			return
